@@ -4,6 +4,7 @@ package dtls
 
 import (
 	"context"
+	"crypto/tls"
 	"net"
 	"time"
 
@@ -69,4 +70,36 @@ func VerifVerifyCert(cert, correct []byte) error { return verifyCert(cert, corre
 // VerifDefaults returns the default heartbeat payload, interval and the write limit.
 func VerifDefaults() ([]byte, time.Duration, uint64) {
 	return defaultConfig.Heartbeat, defaultConfig.Interval, writeMaxBufferedAmount
+}
+
+// VerifListenerKey digests the listener's registration state (which ids are registered in
+// each map and how many connections wait in each channel). Only called by the controller
+// while every thread is parked.
+func VerifListenerKey(l *Listener) uint64 {
+	var h uint64
+	for id, ch := range l.connMap {
+		k := uint64(14695981039346656037)
+		for _, b := range id[:8] {
+			k = (k ^ uint64(b)) * 1099511628211
+		}
+		h += k * uint64(1+len(ch))
+	}
+	for id := range l.connToCert {
+		k := uint64(1099511628211)
+		for _, b := range id[:8] {
+			k = (k ^ uint64(b)) * 1099511628211
+		}
+		h += k * 31
+	}
+	return h
+}
+
+// VerifCertsTLS returns the derived certificates with their keys.
+func VerifCertsTLS(seed []byte) (*tls.Certificate, *tls.Certificate, [28]byte, error) {
+	c, s, err := certsFromSeed(seed)
+	if err != nil {
+		return nil, nil, [28]byte{}, err
+	}
+	r, err := clientHelloRandomFromSeed(seed)
+	return c, s, r, err
 }
